@@ -1,5 +1,7 @@
 import QmiModel.Lemmas.C13Contracts
 import QmiModel.Lemmas.C13Discard
+import QmiModel.Lemmas.C13NoLoss
+import QmiModel.Lemmas.C13Fuel
 /-!
 # C13 — instrument transports never lose, duplicate or reorder bytes
 
@@ -95,6 +97,79 @@ theorem lost_datagram_step (s : St) (op : Op) (hop : op.isRead = true) (h : (ste
   simp only at h
   subst h
   exact this
+
+/-- `QMI_RuntimeException` (a datagram dropped by the OS) can only come out of the datagram transport:
+the stream transports (TCP, serial) never produce it, whatever the script. -/
+theorem runtime_only_udp (s : St) (op : Op) (h : (step s op).2 = .exc .runtime) : s.kind = .udp := by
+  refine Classical.byContradiction fun hk => ?_
+  have hne : NoRt (step s op) := by
+    cases op with
+    | «open» => simp only [step, doOpen, NoRt]; repeat' split
+                all_goals simp
+    | close => simp only [step, doClose, NoRt]; split <;> simp
+    | read n t => simp only [step]; split; exact serialRead_noRt s n t; exact sockRead_noRt s n t hk
+    | readUntil term t => simp only [step]; split; exact serialUntil_noRt s term t; exact sockUntil_noRt s term t hk
+    | readUntilTimeout n t => simp only [step]; split; exact serialRut_noRt s n t; exact sockRut_noRt s n t hk
+    | discardRead =>
+      simp only [step]
+      split
+      · simp only [serialDiscard, NoRt]; split <;> simp
+      · simp only [sockDiscard]; split
+        · simp [NoRt]
+        · exact sockDiscardLoop_noRt _ _
+    | feed evs => simp [step, NoRt]
+  exact hne h
+
+/-- the transport kind never changes -/
+theorem kind_step (s : St) (op : Op) : (step s op).1.kind = s.kind := by
+  cases op with
+  | «open» => simp only [step, doOpen]; repeat' split
+              all_goals rfl
+  | close => simp only [step, doClose]; split <;> rfl
+  | read n t => exact (step_readSpec s (.read n t) rfl).same.kind
+  | readUntil term t => exact (step_readSpec s (.readUntil term t) rfl).same.kind
+  | readUntilTimeout n t => exact (step_readSpec s (.readUntilTimeout n t) rfl).same.kind
+  | discardRead =>
+    simp only [step]
+    split
+    · exact (serialDiscard_spec s).2.kind
+    · exact (sockDiscard_spec s).2.kind
+  | feed evs => rfl
+
+/-- **Unconditional conservation for the stream transports (TCP, serial)**: for every op sequence
+and every oracle script, with no side condition at all. -/
+theorem conservation_stream (ops : List Op) : ∀ (s : St), s.kind ≠ .udp →
+    tot (run s ops).1 = tot s ++ fedBytes ops := by
+  induction ops with
+  | nil => intro s _; simp [run, fedBytes]
+  | cons op os ih =>
+    intro s hk
+    have h1 : (step s op).2 ≠ .exc .runtime := fun h => hk (runtime_only_udp s op h)
+    simp only [run]
+    rw [ih _ (by rw [kind_step]; exact hk), conservation_step s op h1]
+    cases op <;> simp [fedBytes]
+
+/-- The loops of the model are the loops of the code: the `Nat` fuel that makes them structurally
+recursive is never what stops them. A call ends in `exhausted` only when the oracle script is
+empty, i.e. exactly where the real call would block for ever (and where the harness's scripted
+device raises `ScriptExhausted`). -/
+theorem exhausted_only_when_script_empty (s : St) (op : Op) (h : (step s op).2 = .exc .exhausted) :
+    (step s op).1.dev = [] := by
+  have he : step s op = ((step s op).1, .exc .exhausted) := by rw [← h]
+  generalize (step s op).1 = s' at *
+  cases op with
+  | «open» => simp only [step, doOpen] at he; repeat' split at he
+              all_goals simp at he
+  | close => simp only [step, doClose] at he; split at he <;> simp at he
+  | read n t => simp only [step] at he; split at he; exact serialRead_exh he; exact sockRead_exh he
+  | readUntil term t => simp only [step] at he; split at he; exact serialUntil_exh he; exact sockUntil_exh he
+  | readUntilTimeout n t => simp only [step] at he; split at he; exact serialRut_exh he; exact sockRut_exh he
+  | discardRead =>
+    simp only [step] at he
+    split at he
+    · simp only [serialDiscard] at he; split at he <;> simp at he
+    · exact sockDiscard_exh he
+  | feed evs => simp [step] at he
 
 /-! ## each call keeps its own contract -/
 
